@@ -327,7 +327,10 @@ def status_report(status, reason, subj_src, subj_ts, frag=None):
 
 def parse_status_report(data_hex):
     ''' :return: dict(status=[[bool, time|None] x4], reason, src, ts, frag) '''
-    item = cb.parse(bytes.fromhex(data_hex))
+    try:
+        item = cb.parse(bytes.fromhex(data_hex))
+    except cb.CborError as err:
+        raise RefError('admin record is not one CBOR item: %s' % err)
     if item.end != len(data_hex) // 2:
         raise RefError('trailing octets after admin record')
     if item.major != 4 or len(item.value) != 2:
